@@ -116,6 +116,7 @@ type InvariantDecl struct {
 type ChanDecl struct {
 	Type  string
 	Field string
+	Closers []string // `closed by F, G`: the only functions that close the channel held in the field
 	E     Expr
 	Src   string
 	Pkg   string
@@ -385,6 +386,16 @@ func ParseContractLines(pkg, path string, lines []rawLine) *ContractFile {
 		case "channel":
 			// channel T.f carries <expr>
 			f := strings.Fields(d.text)
+			if bi := strings.Index(d.text, " closed by "); bi > 0 && len(f) >= 4 {
+				// channel T.f closed by F[, G]
+				dot := strings.LastIndex(f[0], ".")
+				if dot < 0 {
+					errf(d.loc, "channel needs T.f")
+					continue
+				}
+				cf.ChanDecls = append(cf.ChanDecls, &ChanDecl{Type: f[0][:dot], Field: f[0][dot+1:], Closers: splitList(d.text[bi+11:]), Pkg: pkg, Line: d.loc})
+				continue
+			}
 			ci := strings.Index(d.text, " carries ")
 			if len(f) < 3 || ci < 0 {
 				errf(d.loc, "bad channel declaration")
